@@ -184,6 +184,47 @@ fn run(args: &Args) -> i32 {
 	0
 }
 
+fn unspent_map(chain: &Chain, all: &[Block]) -> Value {
+	let mut v = vec![];
+	for b in all.iter() {
+		for o in b.outputs() {
+			let c = o.commitment();
+			if let Some((_, p)) = chain.get_unspent(c).ok().flatten() {
+				v.push(json!([c.to_hex(), p.pos, p.height]));
+			}
+		}
+	}
+	v.sort_by(|a, b| a[0].as_str().cmp(&b[0].as_str()));
+	json!(v)
+}
+
+/// get_unspent of a node that only ever processed the chain ending in the given head.
+fn twin_unspent(args: &Args) -> i32 {
+	let (all, _desc) = load(args.req("data"));
+	let head = args.req("head").to_string();
+	let tdir = args.req("dir").to_string();
+	let _ = std::fs::remove_dir_all(&tdir);
+	let mut path = vec![];
+	let mut cur = all.iter().find(|b| b.hash().to_hex() == head);
+	while let Some(b) = cur {
+		if b.header.height == 0 {
+			break;
+		}
+		path.push(b.clone());
+		cur = all.iter().find(|x| x.hash() == b.header.prev_hash);
+	}
+	path.reverse();
+	let twin = init_chain(&tdir).expect("twin init");
+	for b in &path {
+		let _ = twin.process_block(b.clone(), Options::SKIP_POW);
+	}
+	let ok = twin.head().unwrap().last_block_h.to_hex() == head;
+	println!("{}", json!({"ok": ok, "unspent_map": unspent_map(&twin, &all)}));
+	drop(twin);
+	let _ = std::fs::remove_dir_all(&tdir);
+	0
+}
+
 /// After a kill: reopen, validate, re-deliver everything, compare.
 fn recover(args: &Args) -> i32 {
 	let (all, desc) = load(args.req("data"));
@@ -203,6 +244,11 @@ fn recover(args: &Args) -> i32 {
 	let mut out = json!({"init": "ok", "reopened": state(&chain)});
 	let v = std::panic::catch_unwind(std::panic::AssertUnwindSafe(|| chain.validate(false)));
 	out["validate"] = json!(match &v { Ok(Ok(())) => "ok".to_string(), Ok(Err(e)) => format!("err:{:?}", e), Err(_) => "panic".into() });
+	// what the reopened node answers to get_unspent for every output ever minted (short chains only; the
+	// driver compares it with a twin that only ever processed the chain of the recovered head)
+	if all.len() <= 24 {
+		out["unspent_map"] = unspent_map(&chain, &all);
+	}
 	// first re-deliver the interrupted input alone (the scenario's operations): the statement's clause
 	let run_ops = |errs: &mut Vec<String>| {
 		for op in desc["ops"].as_array().unwrap() {
@@ -437,6 +483,7 @@ fn main() {
 		Some("run") => run(&args),
 		Some("recover") => recover(&args),
 		Some("compact_reorg") => compact_reorg(&args),
+		Some("twin_unspent") => twin_unspent(&args),
 		_ => {
 			eprintln!("crash prepare|run|recover");
 			2
